@@ -9,8 +9,9 @@ constructions (distinct tags in, positions out), `index`, `truncate_ell`, leadin
 call / operator / reflected / in-place / `out=` / method spellings, the conjugation pairing entry by entry,
 the loop nest of `_multiplication_helper` term by term, and the copy / pickle routes.
 
-All randomness comes from `run.rng`.  Calls that would make the jitted multiplication helper write out of
-bounds (`out=` too small for the product) are never executed; the model marks them `unsafe`."""
+All randomness comes from `run.rng`.  Since the `out=` shape check was added to the Modes x Modes branches, products
+whose `out` is too small are rejected before anything is written, so they are executed like any other case; the
+entries written by add / subtract / multiply with `out=` (separate, stale, or aliasing an operand) are compared too."""
 import copy
 import operator
 import pickle
@@ -299,26 +300,13 @@ class Gen:
 
     # ---------- ufuncs ----------
     def product_safe(self, a, b, out_shape, truncator=None):
-        """would `_multiplication_helper` stay inside `out`?  (filter only: unsafe calls are never executed)"""
+        """only a cost filter now: a wrong-shaped `out` is rejected by the code before the helper runs"""
         La, Lb = a.ell_max, b.ell_max
         if truncator is not None:
             L = truncator((La, Lb))
         else:
             L = max(t((La, Lb)) for t in (a._metadata.get("multiplication_truncator", sum), b._metadata.get("multiplication_truncator", sum)))
-        if L < 0 or L > 26:
-            return False
-        if out_shape is None:
-            return True
-        try:
-            ld = np.broadcast_shapes(a.shape[:-1], b.shape[:-1])
-        except ValueError:
-            return True  # raises before the helper runs
-        if len(out_shape) == 0 or out_shape[-1] < (L + 1) ** 2:
-            return False
-        try:
-            return np.broadcast_shapes(ld, out_shape[:-1]) == tuple(out_shape[:-1])
-        except ValueError:
-            return False
+        return 0 <= L <= 26
 
     def make_out(self, shape_hint, operand):
         """an `out` argument: None / ndarray / Modes of assorted shapes / the first operand itself"""
@@ -524,6 +512,55 @@ class Gen:
                 toks.append(("-" if neg else "+") + str(p) + ("*" if conj else ""))
             self.add(f"conjrow {form} {s} {L}", " ".join(toks), f"conj-pairing:{form}", {"s": s, "L": L, "form": form})
 
+    # ---------- entries of add / subtract / multiply with out= ----------
+    def gen_outrows(self, n):
+        rng, S = self.rng, self.S
+        for _ in range(n):
+            L1, L2 = rng.randint(0, 4), rng.randint(0, 4)
+            s = self.spin()
+            name = rng.choice(["add", "sub"])
+            alias = rng.choice(["n", "o", "a", "b"])
+            if alias == "a" and L1 < L2:
+                L1, L2 = L2, L1
+            if alias == "b" and L2 < L1:
+                L1, L2 = L2, L1
+            n1, n2, nn = (L1 + 1) ** 2, (L2 + 1) ** 2, (max(L1, L2) + 1) ** 2
+            # raw tags (no constructor zeroing): build through views
+            f = (np.arange(n1) + 1.0 + 0j).view(S.Modes)
+            f._metadata = {"spin_weight": s, "ell_max": L1}
+            g = (1j * (np.arange(n2) + 1.0)).view(S.Modes)
+            g._metadata = {"spin_weight": s, "ell_max": L2}
+            out = {"n": None, "o": np.full(nn, 1e6 + 1e6j), "a": f, "b": g}[alias]
+            uf = np.add if name == "add" else np.subtract
+            try:
+                r = uf(f, g) if out is None else uf(f, g, out=out)
+                arr = np.asarray(r.view(np.ndarray)).copy()
+                lo = s * s  # the constructor zeroes the result below |s|
+                got = " ".join("0,0" if p < lo else f"{int(round(v.real))},{int(round(v.imag))}" for p, v in enumerate(arr))
+            except Exception as e:  # noqa: BLE001
+                got = canon_exc(e)
+            self.add(f"addrow {name} {L1} {L2} {alias} {s}", got, f"out-entries:{name}:{alias}", {"L1": L1, "L2": L2, "alias": alias})
+        for _ in range(n):
+            L1, L2 = rng.randint(0, 3), rng.randint(0, 3)
+            alias = rng.choice(["o", "a", "b"])
+            t = rng.choice([sum, max, min])
+            if alias == "a":
+                t, L2 = (max, min(L1, L2)) if L2 else (rng.choice([sum, max]), 0)
+            if alias == "b":
+                t, L1 = (max, min(L1, L2)) if L1 else (rng.choice([sum, max]), 0)
+            s1, s2 = rng.randint(-1, 1), rng.randint(-1, 1)
+            f = self.modes(s=s1, L=L1, lead=(), trunc=t)
+            g = self.modes(s=s2, L=L2, lead=(), trunc=t)
+            L = t((L1, L2))
+            want = np.asarray((f * g).view(np.ndarray)).copy()
+            out = {"o": np.full((L + 1) ** 2, 7.5 - 2j), "a": f, "b": g}[alias]
+            try:
+                r = np.multiply(f, g, out=out)
+                got = "same" if np.asarray(r.view(np.ndarray)).tobytes() == want.tobytes() else "differs"
+            except Exception as e:  # noqa: BLE001
+                got = canon_exc(e)
+            self.add(f"mulout {L1} {L2} {L} {alias}", got, f"out-entries:mul:{alias}", {"L1": L1, "L2": L2, "L": L, "alias": alias})
+
     # ---------- the loop nest of the multiplication helper ----------
     def gen_terms(self, n):
         from spherical.multiplication import _multiplication_helper
@@ -617,6 +654,7 @@ def corr(run, quick):
     g.gen_operator(500 * k)
     g.gen_method(500 * k)
     g.gen_conjrow(60 * k)
+    g.gen_outrows(40 * k)
     g.gen_terms(25 * k)
     g.gen_copy()
     lines = ["modes " + c[0] for c in g.cases]
